@@ -67,11 +67,14 @@ def axis_table(facts, is_target, rule="C05-axis"):
     return dom, seen, len(hits)
 
 
-def table(facts, f, enum_suffix, is_target, rule):
+def table(facts, f, enum_suffix, is_target, rule, exact_type=None):
     """-> {variant of the (single-level) enum: set of target names reached under it} for function f and the helpers it hands the
     enum to"""
     try:
-        dom = enumflow.Domain(facts, enum_suffix)
+        lf = None
+        if exact_type:
+            lf = lambda ty: "outer" if ty.replace("&mut ", "").replace("&", "").strip() == exact_type else None
+        dom = enumflow.Domain(facts, enum_suffix, level_fn=lf)
         hits = enumflow.Flow(dom, f).run(lambda n: bool(_name(facts, n)) and is_target(_name(facts, n)))
     except enumflow.Unknown as u:
         raise BrokenCheck("%s: %s" % (rule, u))
